@@ -425,7 +425,10 @@ class BVEnc:
             if d.op == 'const' and d.val > 0 and d.val & (d.val - 1) == 0:
                 k = d.val.bit_length() - 1
                 W = max(w, a[0].size())
-                return self._ext(self._ext(a[0], W) >> k, w)
+                x = self._ext(a[0], W)
+                if k >= W:
+                    k = W - 1          # an arithmetic shift by the width or more yields the sign fill, as a shift by W-1 does
+                return self._ext(x >> k, w)
             W = max(w, a[0].size(), a[1].size()) + 1
             x = self._ext(a[0], W); y = self._ext(a[1], W)
             q = x / y            # signed, truncating
